@@ -155,9 +155,9 @@ def run_step(prog, n0, i0, frames, base=BOTTOM, ranges=None, max_configs=20000):
     body = inst['body']
     big = io.loop_heads(body)
     outer_head = big[0][1][0]
-    names = dict((n, l) for l, n in body['names'])
+    names = c06.skip_roles(body, outer_head)
     if 'nrounds' not in names or 'irounds' not in names:
-        raise Abort('skip no longer has counters named nrounds / irounds (anchor moved)')
+        raise Abort('skip has no pair of u64 loop counters initialised to 1 and 0 before its loop (anchor moved)')
     ov = dict(l1.decoder_overrides())
     ov[l1.DEC + 'type_of'] = c06.type_of_prim
     ov.update(sat_prims())
